@@ -122,7 +122,7 @@ func (g *gen) strBody(q byte, n int) string {
 		case 22:
 			if legacyOK {
 				p = r.Pick("\\1", "\\7", "\\12", "\\101", "\\42", "\\47", "\\140", "\\134", "\\177", "\\400", "\\015", "\\00", "\\0")
-				if g.known && r.Chance(1, 3) {
+				if r.Chance(1, 4) { // above \177 (N05, repaired)
 					p = r.Pick("\\377", "\\200", "\\251")
 				}
 				nul = true // conservatively avoid a following digit changing the escape
